@@ -365,6 +365,45 @@ def run(ctx):
             if back != want:
                 bad(dict(msg=repr(want)[:500], bytes=ib.hex()[:300], parsed=repr(back)[:500]),
                     'Forward Open request does not parse back to the encoded connection parameters')
+    # ---- E. Connection Manager replies (Forward Open ok / failed, small and large) and Forward Close request / replies --------
+    cms = []
+    for _ in range(500 if ctx.thorough else 120):
+        ids = dict(serial=rng.choice([0, 1, 65535, rng.getrandbits(16)]), vendor=rng.choice([0, 65535, rng.getrandbits(16)]),
+                   oserial=rng.choice([0, 2**32 - 1, rng.getrandbits(32)]))
+        app = bytes(rng.getrandbits(8) for _ in range(rng.choice([0, 0, 2, 4, 10, 254])))
+        k = rng.choice(['fo_ok', 'fo_fail', 'fo_fail', 'fc_req', 'fc_ok', 'fc_min'])
+        if k == 'fo_ok':
+            m = dict(ids, kind=k, svc=rng.choice([0xD4, 0xDB]), otid=rng.getrandbits(32), toid=rng.choice([0, 2**32 - 1, rng.getrandbits(32)]),
+                     otapi=rng.choice([0, 2000, 2**32 - 1]), toapi=rng.getrandbits(32), app=app)
+        elif k == 'fo_fail':
+            m = dict(ids, kind=k, svc=rng.choice([0xD4, 0xDB]), status=(rng.choice([1, 2, 0xFF]), [rng.choice([0x100, 0x315, 0xFFFF]) for _ in range(rng.randint(0, 2))]),
+                     rps=rng.choice([None, 0, 0, 1, 2, 255]))
+        elif k == 'fc_req':
+            m = dict(ids, kind=k, path=[('class', 6), ('instance', 1)] if rng.random() < 0.7 else gen_path(rng), prio=rng.choice([0, 5, 255]),
+                     ticks=rng.choice([0, 247, 255]), cpath=rng.choice([[('port', 1, 0), ('class', 2), ('instance', 1)], gen_path(rng), gen_path(rng, route=True)]))
+        elif k == 'fc_ok':
+            m = dict(ids, kind=k, app=app)
+        else:
+            m = dict(kind=k, status=(rng.choice([1, 5, 0xFF]), [rng.choice([0x107, 0xFFFF]) for _ in range(rng.randint(0, 2))]))
+        cms.append(m)
+    mbs = model_enc(11, 0, [K.cm_tree(m) for m in cms])
+    for m, mb in zip(cms, mbs):
+        kinds['cm/' + m['kind']] = kinds.get('cm/' + m['kind'], 0) + 1
+        try:
+            ib = K.impl_produce_cm(m)
+        except Exception as e:
+            ib = 'EXC ' + type(e).__name__
+        if mb != 'BAD' and ib != mb:
+            dis(dict(kind='Connection Manager produce', msg=repr(m)[:500], impl=ib.hex()[:300] if isinstance(ib, bytes) else ib,
+                     model=mb.hex()[:300] if isinstance(mb, bytes) else mb))
+        if isinstance(ib, bytes):
+            try:
+                back = K.impl_parse_cm(ib)
+            except Exception as e:
+                back = 'EXC ' + type(e).__name__
+            if back != m:
+                bad(dict(msg=repr(m)[:500], bytes=ib.hex()[:300], parsed=repr(back)[:500]),
+                    'Connection Manager message does not parse back to the encoded fields')
     cov['evaluations'] = sum(kinds.values())
     cov['distinct_nontrivial'] = len({repr(m) for m in msgs}) + len({repr(f) for f in frames if f.get('cpf')}) + len({repr(p) for p in paths if len(p) > 1})
     cov['rule'] = ('grammar-directed generation with boundary bias per field: every scalar type at min/max/0/+-1/random and strings of 0..255/1000 chars; '
@@ -388,7 +427,7 @@ def run(ctx):
     ctx.assumptions += ['modelled: scalars, SSTRING/STRING, EPATH (all segment kinds), status, typed data, Read/Write Tag [Fragmented], Get/Set Attribute '
                         'Single, Get Attributes All, Get Attribute List, Multiple Service Packet, Unconnected Send, CPF items 0/0xA1/0xB1/0xB2 (others '
                         'opaque), Register/Unregister/SendRRData/SendUnitData/List* framing, encapsulation header',
-                        'not modelled yet: Forward Open/Close bodies, identity/communications item contents, STRUCT/UDT data, generic service codes',
+                        'not modelled yet: identity/communications item contents, STRUCT/UDT data, generic service codes',
                         'REAL/LREAL carried as bit patterns (NaNs excluded); strings as ISO-8859-1 bytes']
 
 
